@@ -39,7 +39,14 @@ enum Outcome {
     Injected,
 }
 
-fn run_form<E: Elem, N: ArrayLength>(form: Form, src: ScriptIter<E>) -> Outcome {
+fn run_form<E: Elem, N: ArrayLength>(form: Form, src: ScriptIter<E>, marked: bool) -> Outcome {
+    if marked {
+        return run_form_it::<E, N, _>(form, vkit::script::MarkedFused(src));
+    }
+    run_form_it::<E, N, _>(form, src)
+}
+
+fn run_form_it<E: Elem, N: ArrayLength, I: Iterator<Item = E>>(form: Form, src: I) -> Outcome {
     let r = vkit::catch(move || match form {
         Form::TryStack => GA::<E, N>::try_from_iter(src).ok().map(|a| a.iter().map(|e| e.key()).collect::<Vec<u64>>()),
         Form::TryBoxed => GA::<E, N>::try_boxed_from_iter(src).ok().map(|a| a.iter().map(|e| e.key()).collect::<Vec<u64>>()),
@@ -64,7 +71,15 @@ fn grid<E: Elem, N: ArrayLength>(st: &mut Stats, args: &Args) {
         Hint::Fixed(n, None),
         Hint::Fixed(0, Some(n)),
         Hint::Fixed(n + 1, Some(n + 1)),
+        // inconsistent hints (lower > upper): whatever they mean, they rule N out when
+        // lower > N or upper < N
+        Hint::Fixed(n + 3, Some(n + 1)),
+        Hint::Fixed(n + 1, Some(n.saturating_sub(1))),
+        Hint::Fixed(usize::MAX, Some(0)),
     ]);
+    if n >= 3 {
+        hints.push(Hint::Fixed(n - 1, Some(n - 3)));
+    }
     for c in 0..=n + 3 {
         for &hint in &hints {
             for fused in [true, false] {
@@ -95,7 +110,9 @@ fn cell<E: Elem, N: ArrayLength>(st: &mut Stats, c: usize, hint: Hint, fused: bo
         nontrivial,
         || {
             let (src, log) = ScriptIter::<E>::new(c, hint, fused, panic_at);
-            let out = run_form::<E, N>(form, src);
+            // a fused script may truthfully carry the FusedIterator marker
+            let marked = fused && (c + n) % 2 == 0;
+            let out = run_form::<E, N>(form, src, marked);
             let log = log.borrow().clone();
             // ---- properties that hold whatever the outcome
             if log.polls > n + 1 {
